@@ -4,6 +4,7 @@ import (
 	"go/ast"
 	"go/constant"
 	"go/token"
+	"go/types"
 	"strings"
 
 	"golang.org/x/tools/go/packages"
@@ -93,4 +94,13 @@ func constObjEquals(p *packages.Package, name string, w int64) bool {
 	}
 	v, ok := constant.Int64Val(cst.Val())
 	return ok && v == w
+}
+
+func constStrEquals(p *packages.Package, name string, w string) bool {
+	o := p.Types.Scope().Lookup(name)
+	k, ok := o.(*types.Const)
+	if !ok || k.Val().Kind() != constant.String {
+		return false
+	}
+	return constant.StringVal(k.Val()) == w
 }
